@@ -25,7 +25,8 @@ RULE = ("(1) exhaustive: every sequence of <= 3 (thorough: <= 4) lexical atoms f
         "campaign whose target decodes bytes into atom sequences. Oracle: outcome is an AST node "
         "(every reachable field value a node/str/None/list) or one of the four library exceptions "
         "(each an ODataException); re-parsing with fresh instances gives the same outcome. "
-        "Non-trivial: >= 2 atoms; distinct by input string.")
+        "Non-trivial: >= 2 atoms; distinct by input string."
+        " Every short input runs under a 20 s watchdog (inconclusive on expiry, the task gives up after three), so the check terminates even if the parser does not.")
 ASSUMPTIONS = ["termination is only bounded: a 120 s watchdog per long input reports 'inconclusive', never a violation"]
 
 ATOMS = [
